@@ -4,8 +4,9 @@ use std::convert::TryFrom;
 
 pub(crate) fn apply_escapes(origin: &str) -> Result<String, CompilationError> {
     lazy_static! {
-        static ref RE: Regex = Regex::new(r"\\(u\{.+?\}|.)").unwrap();
-        static ref BYTECODE: Regex = Regex::new("[a-fA-F0-9]{1,6}$").unwrap();
+        // (?s): a backslash before a line break is an escape sequence too (a bad one)
+        static ref RE: Regex = Regex::new(r"(?s)\\(u\{.+?\}|.)").unwrap();
+        static ref BYTECODE: Regex = Regex::new("^[a-fA-F0-9]{1,6}$").unwrap();
     }
     // invariant, the last character in the string cannot be a slash
     let mut ret = String::with_capacity(origin.len());
@@ -17,7 +18,7 @@ pub(crate) fn apply_escapes(origin: &str) -> Result<String, CompilationError> {
 
         ret.push({
             if let Some(bytecode) = caps[1].strip_prefix("u{").and_then(|s| s.strip_suffix('}')) {
-                if !BYTECODE.is_match_at(bytecode, 0) {
+                if !BYTECODE.is_match(bytecode) {
                     return Err(CompilationError::BadEscapeSequence {
                         sequence: caps[0].to_string(),
                     });
